@@ -28,6 +28,12 @@ func checkC12(c *Ctx, r *Result, tier string) {
 	nAcq := checkLockPairing(c, r, lfs, "R12a", c.ModFuncs())
 	r.Floor("R12a-acquisitions", nAcq, 50)
 
+	// R12e: thread ids are unique
+	nGen := checkIDGenerators(c, r, lfs, "R12e",
+		"two threads get the same thread id, so the re-entrancy test owner == tid lets the second thread into a mutex block the first one is still in",
+		func(p string) bool { return p == "engine/pool" })
+	r.Floor("R12e", nGen, 1)
+
 	// locate the mutex block runtime: the Eval method (of a parser.Runtime implementation)
 	// that locks a mutex obtained from the provider's Mutexes table
 	fMutexes := c.Field("interpreter", "ECALRuntimeProvider", "Mutexes")
